@@ -2,7 +2,7 @@
    integer-token lines) -> output lines.  The Rust harness implements the same interface
    on top of the real crate. *)
 From Coq Require Import ZArith List.
-From KD Require Import Model.Values Model.Compare Model.Validate Model.Perm Model.Glob Model.Broker Model.BrokerRun Model.Api Model.ApiRun Model.Wire Model.Conc Model.FloatLit Model.Query Model.QueryRun.
+From KD Require Import Model.Values Model.Compare Model.Validate Model.Perm Model.Glob Model.Broker Model.BrokerRun Model.Api Model.ApiRun Model.Wire Model.Conc Model.FloatLit Model.Query Model.QueryRun Model.Vss.
 Open Scope Z_scope.
 
 Definition fam_cmp : Z := 13.
@@ -13,6 +13,7 @@ Definition fam_hist : Z := 1.
 Definition fam_trace : Z := 11.
 Definition fam_wire : Z := 15.
 Definition fam_query : Z := 16.
+Definition fam_vss : Z := 17.
 
 Definition run (fam : Z) (case : list (list Z)) : list (list Z) :=
   if fam =? fam_cmp then map run_cmp_line case
@@ -23,4 +24,5 @@ Definition run (fam : Z) (case : list (list Z)) : list (list Z) :=
   else if fam =? fam_trace then map run_trace_line case
   else if fam =? fam_wire then map run_wire_line case
   else if fam =? fam_query then run_query_case case
+  else if fam =? fam_vss then run_vss_case case
   else [[-99]].
